@@ -1,5 +1,6 @@
 import RtcVerif.Model.C04Json
 import RtcVerif.Model.C02Loop
+import RtcVerif.Model.C02KeepSoft
 /-! Line-protocol driver for the C02 models (store operations of the priority loop). -/
 open Lean RtcVerif RtcVerif.Wire RtcVerif.C04 RtcVerif.C02
 
@@ -25,15 +26,26 @@ def optIvlJ : Option EIvl → Json
 def storeJ (s : Store) (n : Nat) : Json :=
   Json.arr (s.keys.map fun fk => Json.arr #[Json.str fk, Json.arr ((s.ofKey fk n).map optIvlJ).toArray]).toArray
 
-def solOf (gs : List Goal) (ach : List (List Rat)) : Sol :=
+/-- `ach[gj][i]`: achieved epsilon (target goals) or function value (minimisation goals);
+    `fv[gj][i]`: the goal function value at the solution (all goals; optional) -/
+def solOf (gs : List Goal) (ach : List (List Rat)) (fv : Option (List (List Rat))) : Sol :=
   { eps := fun gj i => (ach.getD gj []).getD i 0
     fval := fun fk i =>
-      match (List.range gs.length).find? (fun gj =>
-          match gs[gj]? with
-          | some g => g.fk == fk && !g.hasTargetBounds
-          | none => false) with
-      | some gj => (ach.getD gj []).getD i 0
-      | none => 0 }
+      match fv with
+      | some fv =>
+          match (List.range gs.length).find? (fun gj =>
+              match gs[gj]? with
+              | some g => g.fk == fk
+              | none => false) with
+          | some gj => (fv.getD gj []).getD i 0
+          | none => 0
+      | none =>
+          match (List.range gs.length).find? (fun gj =>
+              match gs[gj]? with
+              | some g => g.fk == fk && !g.hasTargetBounds
+              | none => false) with
+          | some gj => (ach.getD gj []).getD i 0
+          | none => 0 }
 
 def handle (j : Json) : Option Json := do
   let op ← getStr j "op"
@@ -44,7 +56,7 @@ def handle (j : Json) : Option Json := do
       let o ← (getObj j "opts").bind hoptsOfJson
       let gs ← goalsOfJson j "goals"
       let ach ← getRatMat j "ach"
-      pure (storeJ (convertAll o n (solOf gs ach) st gs) n)
+      pure (storeJ (convertAll o n (solOf gs ach (getRatMat j "fv")) st gs) n)
   | "criticals" =>
       let st ← (getObj j "store").bind storeOfJson
       let n ← getNat j "n"
@@ -66,9 +78,15 @@ def handle (j : Json) : Option Json := do
             let acc := storeJ st1 n :: acc
             match getRatMat sj "ach" with
             | none => go st1 rest acc
-            | some ach => go (convertAll o n (solOf gs ach) st1 gs) rest acc
+            | some ach => go (convertAll o n (solOf gs ach (getRatMat sj "fv")) st1 gs) rest acc
       let r ← go [] steps []
       pure (Json.arr r.toArray)
+  | "objrow" =>
+      let fix ← getBool j "fix"
+      let cr ← getRat j "cr"
+      let v ← getRat j "v"
+      let r := objRow fix cr 0 v
+      pure (Json.arr #[r.lo.toJson, r.hi.toJson])
   | "update" =>
       let s ← getIvls j "self"
       let o ← getIvls j "other"
